@@ -4,7 +4,14 @@ import boundfam as BF, glayer
 from common import Expander
 
 LEVEL = "proof"
-G_UNITS = {}
+G_UNITS = {
+    "bounds": ["Bounds::new", "Bounds::push", "Bounds::from", "WhereClauseBuilder::push_bounds", "WhereClauseBuilder::push_bounds_for_field",
+               "HelperAttributeForCompareOp::push_bounds_to", "HelperAttributesForCompareOp::push_bounds", "DeriveEntry::push_bounds_to",
+               "DeriveEntry::push_bounds_to_with", "HelperAttributes::push_bounds_to", "HelperAttributes::push_bounds_to_without_helper",
+               "HelperAttributes::push_bounds_to_raw", "FieldEntry::push_bounds_to", "CompareOp::is_effects_to"],
+    "builders": ["build_copy_for_struct", "build_copy_for_enum", "build_clone_for_struct", "build_clone_for_enum", "build_debug_expr",
+                 "build_debug_for_struct", "build_debug_for_enum", "build_default_ctor_args"],
+}
 
 
 def bounded(ctx, ex, per_trait):
@@ -39,14 +46,34 @@ def run(ctx):
     ex = Expander()
     n, nontriv, samples = bounded(ctx, ex, 60 if ctx.quick else 3000)
     ex.close()
-    cov = {"evaluations": n, "distinct_nontrivial": nontriv, "rule": "random assignments of the six forms to every level; non-trivial = some type/variant level carries a bound", "samples": samples,
-           "explanation": "bounded"}
-    return ctx.finish("other", cov)
+    g = glayer.run_g(ctx, G_UNITS)
+    ctx.assumptions += [
+        "layer G (proved for all assignments of bound(...) to all levels and every number of variants/fields): the whole resolution chain Bounds::from .. FieldEntry::push_bounds_to and the builders of Copy, Clone, Debug (struct+enum) and Default's field walk, against the reference walk of contracts/_boundspec.rs",
+        "layer G assumptions: WhereClauseBuilder::new copies the declared where-clause (external, checked by layer B); GenericParamSet::contains_in_type == mentions (external visitor); HashMap::get as a partial map; structural Clone of syn types; R9: slice.iter().rev() yields the reversed literal",
+        "not under contract (bounded only): the comparison body builders' field-level interleaving of helper bounds with key/by selection, the operator builders (closures), build_default_for_enum/struct, Bound::parse and structmeta parsing",
+        "layer B: seeded random assignments through the real expander for every derivable trait (struct and enum), where-clauses compared as multisets with the reference of lib/boundfam.py",
+    ]
+    cov = {
+        "obligations": g["obligations"], "discharged": g["discharged"],
+        "checker_cmd": "verus build/g/bounds.rs ; verus build/g/builders.rs (--output-json --time)",
+        "trusted_base": ["Verus 0.2026.09.13 / Z3", "contracts/_prelude.rs + _types.rs stand-ins"],
+        "functions_under_contract": g["functions_under_contract"], "g_units": g["units"], "assumption_scan": g["assumption_scan"], "solver_ms": g["smt_ms"],
+        "bounded": {"evaluations": n, "with_type_or_variant_level_bounds": nontriv},
+        "evaluations": n, "distinct_nontrivial": nontriv,
+        "rule": "random assignments of the six forms {absent, bound(), bound(P), bound(..), bound(P, ..), bound(T)} to every level of every placement; marker predicates unique per level",
+        "samples": samples,
+    }
+    return ctx.finish(LEVEL, cov)
 
 
 def replay(path):
     rep = json.load(open(path))
     print(json.dumps({k: v for k, v in rep.items() if k != "verifier_output"}, indent=1)[:3000])
+    if rep.get("layer") == "G":
+        print(rep.get("verifier_output", ""))
+        if rep.get("counterexample_replay"):
+            return replay(rep["counterexample_replay"])
+        return 1
     if "item" in rep:
         ex = Expander()
         r = ex.attr(rep["args"], rep["item"]) if rep.get("entry", "attr") == "attr" else ex.derive("#[derive_ex(%s)] %s" % (rep["args"], rep["item"]))
